@@ -6,7 +6,7 @@ R(n) == <<"$", "E", "N", "V", "{">> \o n \o <<"}">>
 \* "~" and "^" stand for the non-ASCII letters U+00E9 and U+00FC (the harness substitutes them; TLC
 \* cannot print non-ASCII characters faithfully)
 \* whole references are single tokens so that interesting inputs are short
-TokensDef == { R(<<"A">>), R(<<"B">>), R(<<"U">>), R(<<"~">>), R(<<"A", ".", "b">>), R(<<"A", "%">>), <<"$", "E", "N", "V", "{">>, <<"$">>, <<"{">>, <<"}">>,
+TokensDef == { R(<<"A">>), R(<<"B">>), R(<<"U">>), R(<<"~">>), R(<<"A", ".", "b">>), R(<<"A", "%">>), R(<<"S">>), <<"/">>, <<"$", "E", "N", "V", "{">>, <<"$">>, <<"{">>, <<"}">>,
                <<"A">>, <<".">>, <<"~">>, <<"/", "x">>, <<"1">>, <<"-">> }
 \* values: contain "{", "}", the index placeholder "{}", the text ENV{B}, a slash, non-ASCII, or are empty - but never "$"
 SetVarsDef == (<<"A">> :> <<"E", "N", "V", "{", "B", "}">>) @@ (<<"B">> :> <<"x">>) @@ (<<"~">> :> <<"d", "{", "}", "/", "^">>)
@@ -20,7 +20,10 @@ SetVarsDef == (<<"A">> :> <<"E", "N", "V", "{", "B", "}">>) @@ (<<"B">> :> <<"x"
               \* "%" stands for U+0663 ARABIC-INDIC DIGIT THREE: a digit that is not ASCII is a name character like any
               \* other alphanumeric one
               @@ (<<"A", "%">> :> <<"n", "u", "m">>)
-StartDef == {"A", "B", "U", "_", "~", "1", "b", "0", "2", "%"}
+              \* a value that starts with a slash: behind a slash of the input it opens a path component, and is still
+              \* nothing but text put where the reference stood
+              @@ (<<"S">> :> <<"/", "t", "m", "p", "/", "l", "v", "q">>)
+StartDef == {"A", "B", "U", "_", "~", "1", "b", "0", "2", "%", "S"}
 PartDef == StartDef \cup {"."}
 \* the input as the pattern of a roller whose window is 0..2, with the index where the input has "1": what the
 \* pattern means at the other two indices (the meaning is per index: substitute, then expand)
@@ -30,6 +33,6 @@ Emit == Done => PrintT(<<"REPLAY", ToJson(IF HasOne
                                           THEN [input |-> Str(Input), expect |-> Str(out), expect0 |-> Str(Expand(Sub(Input, "0"), 1)),
                                                 expect2 |-> Str(Expand(Sub(Input, "2"), 1))]
                                           ELSE [input |-> Str(Input), expect |-> Str(out)])>>)
-MetaInit == Init /\ PrintT(<<"REPLAY", ToJson([meta |-> "env", vars |-> [k \in {"A", "B", "~", "A.b", ".A", "A1", "A%"} |->
-                 CASE k = "A" -> "ENV{B}" [] k = "B" -> "x" [] k = "~" -> "d{}/^" [] k = ".A" -> "q" [] k = "A1" -> "one" [] k = "A%" -> "num" [] OTHER -> ""], unset |-> <<"U", "1", "1A", "A.", "AA">>])>>)
+MetaInit == Init /\ PrintT(<<"REPLAY", ToJson([meta |-> "env", vars |-> [k \in {"A", "B", "~", "A.b", ".A", "A1", "A%", "S"} |->
+                 CASE k = "A" -> "ENV{B}" [] k = "B" -> "x" [] k = "~" -> "d{}/^" [] k = ".A" -> "q" [] k = "A1" -> "one" [] k = "A%" -> "num" [] k = "S" -> "/tmp/lvq" [] OTHER -> ""], unset |-> <<"U", "1", "1A", "A.", "AA">>])>>)
 =============================================================================
